@@ -1293,6 +1293,14 @@ def run(chk):
     chk.floor('R09.12', 6)
     chk.floor('R09.9', 1)
     c10.check_name_dedup(chk, chk.tier, rule='R09.8')
+    # R09.13: -g gives a function its debug name as a symbol only when it is not exported (an exported function already has the symbol of
+    # its export wrapper): whether a function is exported is recorded by the export-section reader - for every defined function,
+    # the first one (index = number of function imports) included, and for no import (grammar rule shared with C08 R08.8)
+    from . import c08 as _c08
+    _rtu = astdb.dump_ast(astdb.src('w2c2/reader.c'))
+    chk.unit(_rtu)
+    _c08.check_section_grammar(chk, _rtu, rule='R09.13', only=('wasmReadExportSection', 'wasmReadExportSection#2', 'wasmReadExportSection#3'))
+    chk.floor('R09.13', 3)
     check_whole_outputs(chk, chk.tier)
     # R09.10: which functions share an output file (-f N, the hash order of the static/dynamic lists) must not change any function's
     # text: each function in a multi-function file equals its text when it is written alone, for several orders - including a void
